@@ -691,10 +691,30 @@ func c07Decrypt(c *Ctx, mk *ssa.Function, tr *an.Tracer) {
 				if strings.Join(ho, "|") == strings.Join(ro, "|") {
 					sameCand = true
 				}
+				// the result travels through a variable that is nil on the path that does not return it
+				// (a helper's `return nil, false` after inlining): every origin of the hashed candidate is an
+				// origin of the result and the remaining ones are constants
+				if len(ho) > 0 && len(ro) > len(ho) {
+					in := map[string]bool{}
+					for _, o := range ho {
+						in[o] = true
+					}
+					all, hit := true, 0
+					for _, o := range ro {
+						if in[o] {
+							hit++
+						} else if !strings.HasPrefix(o, "const:") && !strings.HasPrefix(o, "nil") {
+							all = false
+						}
+					}
+					if all && hit == len(in) {
+						sameCand = true
+					}
+				}
 			}
 		}
 		r.Check(len(un) == 0 && sameCand, "R07.G", key, c.pos(i.Cond.Pos()),
-			sprintf("%d return(s), %d reachable without the equal edge; returned value is the hashed candidate: %v", len(rets), len(un), sameCand))
+			sprintf("%d return(s), %d reachable without the equal edge; returned value is the hashed candidate: %v (hash: %s)", len(rets), len(un), sameCand, tr.OriginString(hashV)))
 	}
 	if !found {
 		r.Violate("R07.G", key, c.pos(df.Pos()), "no bytes.Equal(decrypted[:20], SHA1(candidate)) guard before the return of DecryptMessageWithTempKeys")
